@@ -196,6 +196,10 @@ func goString(v value, what string) string {
 		panic(unsupported{what + ": opaque string " + s.desc})
 	case decStr:
 		panic(unsupported{what + ": decimal token of a symbolic integer"})
+	case symStr:
+		panic(unsupported{what + ": symbolic string"})
+	case enumStr:
+		panic(unsupported{what + ": enumerated symbolic string"})
 	}
 	panic(fmt.Sprintf("%s: not a string: %T", what, v))
 }
@@ -323,7 +327,7 @@ func (i *interpreter) nativeArg(v value) (interface{}, bool) {
 			return nil, true
 		}
 		return fmt.Sprintf("%p", x), true
-	case symv, symb, opaqueStr, decStr:
+	case symv, symb, opaqueStr, decStr, symStr, enumStr:
 		return nil, false
 	case structure:
 		if containsSym(x) {
@@ -626,6 +630,8 @@ func baseHooks() map[string]hookFn {
 	h["runtime.KeepAlive"] = func(i *interpreter, fr *frame, fn *ssa.Function, args []value) value { return nil }
 	h["runtime.SetFinalizer"] = func(i *interpreter, fr *frame, fn *ssa.Function, args []value) value { return nil }
 
+	h["os.Getenv"] = func(i *interpreter, fr *frame, fn *ssa.Function, args []value) value { return "" }
+	h["os.LookupEnv"] = func(i *interpreter, fr *frame, fn *ssa.Function, args []value) value { return tuple{"", false} }
 	addSyncHooks(h)
 	return h
 }
